@@ -164,15 +164,25 @@ class Tags:
         moved = rng.random() < 0.25
         if moved and not any(t["name"] == "floating" for t in tags):
             tags.append({"name": "floating", "kind": "junk", "branch": "main", "depth": 2})
+        # tags that so far exist on the remote only (pushed by CI or a colleague, onto commits this clone has): every run
+        # fetches first, so they count
+        if not self.real and rng.random() < 0.3:
+            for t in tags:
+                if t["name"] != "floating" and rng.random() < 0.4:
+                    t["remote_only"] = True
         ops = []
         for _ in range(rng.randint(1, 4)):
             if rng.random() < 0.4:
                 ops.append({"op": "show", "ignore": rng.random() < 0.15,
                             "fault": rng.choice([None, None, None, None, "fetch", "ls_tags"])})
+                if any(t.get("remote_only") for t in tags) and ops[-1]["fault"] == "fetch":
+                    ops[-1]["fault"] = None
             else:
                 ops.append({"op": "update", "flags": gp.gen_flags(rng, tree), "delta": gp.gen_clock_delta(rng),
                             "ignore": rng.random() < 0.25, "scope_flag": rng.choice([None, None, "default", "global", "branch"]),
                             "dry": rng.random() < 0.3, "fault": rng.choice([None, None, None, None, None, "fetch", "ls_tags"])})
+                if any(t.get("remote_only") for t in tags) and ops[-1]["fault"] == "fetch":
+                    ops[-1]["fault"] = None
         return {"pattern": pat["pattern"], "epoch": epoch.isoformat(), "state": state, "cfg_text": cfg_text,
                 "branches": branches, "head": rng.choice(branches), "tags": tags, "scope": scope,
                 "pers": "hg" if (not self.real and rng.random() < 0.2) else "git",
@@ -199,7 +209,10 @@ class Tags:
         repo.commit_log = []
         for t in case["tags"]:
             chain = tips[t["branch"]]
-            repo.tags[t["name"]] = chain[max(0, len(chain) - 1 - t["depth"])]
+            if t.get("remote_only"):
+                repo.pending_remote_tags.append((t["name"], chain[max(0, len(chain) - 1 - t["depth"])]))
+            else:
+                repo.tags[t["name"]] = chain[max(0, len(chain) - 1 - t["depth"])]
         if case.get("twin_branch") and pers == "git" and case["twin_branch"] in repo.tags:
             repo.branches[case["twin_branch"]] = base
         if case.get("moved_remote_tag"):
@@ -265,9 +278,12 @@ class Tags:
         else:
             rg = None
             repo = self.build_fake(case, d)
-            existing = set(repo.tags)
+            arriving = dict((n, c) for n, c in repo.pending_remote_tags)
+            existing = set(repo.tags) | set(arriving)
             anc = repo.ancestors(repo.head_commit())
-            reachable = set(t for t in repo.tags if repo.tags[t] in anc)
+            reachable = set(t for t in repo.tags if repo.tags[t] in anc) | set(n for n, c in arriving.items() if c in anc)
+            if arriving:
+                ctx.probe("tags_that_arrive_with_the_fetch")
         tags = [t for t in case["tags"] if t["name"] in existing]
         ctx.sample = {"campaign": self.name, "pattern": pattern, "config_version": cfg_text, "scope": case["scope"],
                       "head": case["head"], "tags": [(t["name"], t["branch"], t["kind"]) for t in tags][:8], "ops": case["ops"][:3]}
@@ -307,6 +323,10 @@ class Tags:
                         "ls_tags_branch" if scope == "branch" and not op.get("ignore") else "ls_tags"), rc=128)
                 shim = fakevcs.VcsShim(repo, fault)
                 pre_tags = set(repo.tags)
+                if not op.get("ignore"):
+                    # the run fetches before it looks at tags; with --ignore-vcs-tag it need not, and a tag that only the
+                    # remote has is then not "an existing tag" of this repository yet
+                    pre_tags |= set(n for n, _c in repo.pending_remote_tags)
             res = invoker.invoke(d, argv, clock, shim, fakevcs.HookShim({}))
             ctx.invocations += 1
             if op["op"] == "show":
